@@ -357,6 +357,42 @@ class Ctx:
                     out.append((blk, i, st))
         return out
 
+    def field_writes(self, body, base_local=1):
+        """Writes to fields of `base_local` (self): (block whose path condition selects the write,
+        field name, assignment statement).  A write through a `&mut` chosen by a match
+        (`let slot = match w { "a" => &mut self.a, .. }; *slot = v`) is reported once per arm, under
+        the arm's condition."""
+        out = []
+        for blk, i, st in body.stmts():
+            if st["k"] != "assign":
+                continue
+            p = st["p"]
+            flds = [e for e in p["proj"] if e["k"] == "field"]
+            if p["local"] == base_local and flds:
+                out.append((blk, flds[-1]["name"], st))
+                continue
+            if p["local"] != base_local and p["proj"] and all(e["k"] == "deref" for e in p["proj"]):
+                # *ptr = v : where does ptr point?
+                todo, seen = [p["local"]], set()
+                while todo:
+                    l = todo.pop()
+                    if l in seen:
+                        continue
+                    seen.add(l)
+                    for d in body.defs().get(l, []):
+                        if d[2] != "assign" or body.is_cleanup(d[0]):
+                            continue
+                        r = d[3]["r"]
+                        if r["k"] == "ref" and r["p"]["local"] == base_local:
+                            f2 = [e for e in r["p"]["proj"] if e["k"] == "field"]
+                            if f2:
+                                out.append((d[0], f2[-1]["name"], st))
+                        elif r["k"] == "ref" and all(e["k"] == "deref" for e in r["p"]["proj"]):
+                            todo.append(r["p"]["local"])      # reborrow
+                        elif r["k"] == "use" and r["op"]["k"] in ("copy", "move") and not [e for e in r["op"]["p"]["proj"] if e["k"] != "deref"]:
+                            todo.append(r["op"]["p"]["local"])
+        return out
+
     def find_field_assigns(self, body, field, base_local=None):
         out = []
         for blk, i, st in body.stmts():
